@@ -15,8 +15,10 @@ ARMS = {"C04": (0.8, 0.2), "C05": (0.8, 0.2), "C06": (0.4, 0.6), "C07": (0.5, 0.
 
 TIERS = {
     # swarm definitions, capacities per definition, histories per profile, miri histories
-    "quick": dict(swarm=12, caps=2, runs=40000, miri=96, miri_defs=8),
-    "thorough": dict(swarm=85, caps=3, runs=3000000, miri=1600, miri_defs=24),
+    # optimised builds are expensive per definition, unoptimised ones cheap: the dev arm sweeps many more
+    # definitions (one capacity each), the release / hooks / Miri arms the corpus plus a smaller swarm
+    "quick": dict(swarm=12, caps=2, swarm_dev=150, caps_dev=1, runs=40000, miri=96, miri_defs=8),
+    "thorough": dict(swarm=85, caps=3, swarm_dev=1500, caps_dev=2, runs=3000000, miri=1600, miri_defs=24),
 }
 
 LEVEL = {"C04": "exploration", "C05": "exploration", "C06": "exploration", "C07": "exploration", "C15": "fault_enumeration", "C16": "fault_enumeration"}
@@ -37,8 +39,10 @@ CRASH_PROPS = {
 }
 
 
-def build_env(seed, tier):
+def build_env(seed, tier, profile="release"):
     t = TIERS[tier]
+    if profile == "dev":
+        return {"RECSIM_SEED": str(seed), "RECSIM_SWARM": str(t["swarm_dev"]), "RECSIM_CAPS": str(t["caps_dev"]), "RECSIM_CORPUS": "1"}
     return {"RECSIM_SEED": str(seed), "RECSIM_SWARM": str(t["swarm"]), "RECSIM_CAPS": str(t["caps"]), "RECSIM_CORPUS": "1"}
 
 
@@ -48,7 +52,7 @@ HOOK_CFG = "--cfg truc_verif_hooks"
 
 def build(profile, seed, tier, miri=False, plans=None):
     env = cargo_env()
-    env.update(build_env(seed, tier))
+    env.update(build_env(seed, tier, profile))
     hooks = profile == "hooks"
     if hooks:
         # the guarded instrumentation of truc_runtime::data (off in every other arm)
@@ -270,6 +274,9 @@ def check(prop, tier, seed):
             run(["cp", "-f", src, dst])
         bins[profile] = dst
     listing = json.loads(run([bins["dev"], "list"]).stdout)
+    listing_release = json.loads(run([bins["release"], "list"]).stdout)
+    # replay files look definitions up in the listing of the arm that found them
+    listings = {"dev": listing, "release": listing_release, "hooks": listing_release, "miri": listing_release}
     ndefs = len({d["def"] for d in listing["definitions"]})
     free_share, fault_share = ARMS[prop]
     jobs = []
@@ -324,7 +331,7 @@ def check(prop, tier, seed):
             total.add(r["report"], arm)
             hashes[profile].append(r["report"]["hash"])
         pending = list(zip(again, fan_out(again, timeout=4 * 3600))) if again else []
-    same_events = hashes["dev"] == hashes["release"]
+    same_events = None  # the dev arm sweeps a larger definition set than the optimised arms: hashes are not comparable
 
     notes = []
     miri_merged, miri_ub, miri_s = Merged(), [], 0.0
@@ -401,7 +408,7 @@ def check(prop, tier, seed):
             minimal, tried = minimise_case(bins[profile], case, viol["clause"])
             if not same_failure(*eval_case(bins[profile], minimal), viol["clause"]):
                 minimal = case
-        definition = next((d for d in listing["definitions"] if case and d["def"] == case["def"] and d["cap"] == case["cap"]), None)
+        definition = next((d for d in listings.get(profile, listing)["definitions"] if case and d["def"] == case["def"] and d["cap"] == case["cap"]), None)
         doc = dict(property=prop, simulator="SIM-R", tier=tier, seed=seed, run=v.get("run"),
                    build=dict(profile=profile, definition_seed=seed, tier=tier, miri_seed=v.get("miri_seed"), miri_key=v.get("miri_key")), key=key,
                    violation=viol, case=minimal, original_case=v.get("original_case", case), minimisation_attempts=tried,
@@ -435,6 +442,8 @@ def check(prop, tier, seed):
         definitions=ndefs,
         instantiations=len(listing["definitions"]),
         variant_types=sum(d["variants"] for d in listing["definitions"]),
+        definitions_optimised_arms=len({d["def"] for d in listing_release["definitions"]}),
+        instantiations_optimised_arms=len(listing_release["definitions"]),
         pipeline_failures=listing["pipeline_failures"],
         shapes_excluded=["datum added and removed again before its variant is closed (C13 finding: capacity computation overflows)"],
         histories_per_arm={k: m.runs for k, m in sorted(per_arm.items())},
@@ -473,7 +482,7 @@ def replay(doc):
             return EXIT_VIOLATION
         log("replay: Miri arm did not reproduce (%s %s)" % (status, mk))
         return EXIT_OK
-    binary, _ = build(profile, b.get("definition_seed", DEFAULT_SEED), b.get("tier", "quick"))
+    binary, _ = build(profile.split("/")[0], b.get("definition_seed", DEFAULT_SEED), b.get("tier", "quick"))
     status, viols = eval_case(binary, doc["case"])
     clause = doc["violation"]["clause"]
     if same_failure(status, viols, clause):
